@@ -25,6 +25,7 @@ def joinB (sep : Bytes) : List Bytes → Bytes
   | [x] => x
   | x :: xs => x ++ sep ++ joinB sep xs
 
+/-- FP_*.String(): what the validator's tree shows for an argument (a path or group argument: what the user typed) -/
 def Param.toBytes : Param → Bytes
   | .num d => d.toBytes
   | .str s => [34] ++ escape s ++ [34]
@@ -41,7 +42,18 @@ def sprintParts (depth : Nat) : List PathPart → Bytes
 def sprintPart (depth : Nat) : PathPart → Bytes
   | .ident name prop _ => [46] ++ name ++ (if prop then [63] else [])
   | .filter lo _ => sprintLogic depth lo
-  | .func _ name params _ => [46] ++ name ++ [40] ++ joinB [44] (params.map Param.toBytes) ++ [41]
+  | .func _ name params _ => [46] ++ name ++ [40] ++ sprintParams params ++ [41]
+/-- opFunction.Sprint: a path or group argument is printed from its structure (at depth 0), the others by String() -/
+def sprintParam : Param → Bytes
+  | .num d => d.toBytes
+  | .str s => [34] ++ escape s ++ [34]
+  | .bool b => if b then Mp.str "true" else Mp.str "false"
+  | .path p => sprintPath 0 p
+  | .logic l => sprintLogic 0 l
+def sprintParams : List Param → Bytes
+  | [] => []
+  | [p] => sprintParam p
+  | p :: ps => sprintParam p ++ [44] ++ sprintParams ps
 def sprintLogic (depth : Nat) : LogicOp → Bytes
   | .mk _ isFilter ty ops _ =>
     (if isFilter then [91] else tabs depth ++ [123]) ++ [10] ++ tabs (depth + 1) ++
